@@ -68,6 +68,7 @@ def specGuard (decl : List Const) (cur : Name → Option Int) : Bool :=
   grammar has every constant of T introduced by an explicit `T` or carried down from one.
   Outside ⇒ `Out`.
 * no constant of T at all ⇒ `Out` (nothing to generate; shoot writes nothing and exits 0).
+* a constant named exactly like the type (empty trimmed name) ⇒ `Out`: not a Go package (redeclaration).
 * duplicate values or duplicate trimmed names ⇒ `Out`: the property ("each declared constant maps to
   its name … and back") cannot be met by ANY implementation when two constants share a value or a
   trimmed name, so these declarations are outside its quantifier.  (The emitted map literals then
@@ -86,7 +87,8 @@ def grammarOK (i : Input) : Bool :=
   !i.T.isEmpty && i.blocks.all (fun b => b.all (specOK i.T i.kind))
 
 def nodupOK (T : Name) (decl : List Const) : Bool :=
-  decide (decl.map (·.val)).Nodup && decide (decl.map (fun c => trim T c.name)).Nodup
+  decide (decl.map (·.val)).Nodup && decide (decl.map (fun c => trim T c.name)).Nodup &&
+    decl.all (fun c => !(trim T c.name).isEmpty)
 
 def valuesSmall (decl : List Const) : Bool :=
   decl.all (fun c => decide (0 ≤ c.val) && decide (c.val < 9223372036854775808))
